@@ -14,6 +14,7 @@ An *init* is::
      "heights": [..],                    one per block, dummy last
      "fuel_mat": "UZr" | "UraniumOxide", "clad_mat": "HT9" | "Inconel625",
      "bond": bool, "tight": bool,
+     "duct_mat": None | "Custom", "grid_mat": None | "Molybdenum",   (fuel_mat / clad_mat may be "Custom" too)
      "fat": None | "solid" | "hollow",   fuel od 0.98 with id 0.0 / 0.92 (a hollow pellet does not reach the slug below)
      "multi": bool,                      fuel od 1.05: overlaps two solids of the block below (linkage must be refused)
      "shield_mult": float | None,        other pin multiplicity in the shield block (fuel block unlinked from it)
@@ -31,6 +32,22 @@ STACKS = {"SFD": ["shield", "fuel", "dummy"], "GFFPD": ["grid plate", "fuel", "f
 # designated target component under ARMI's default rule, by block kind (ExpansionData._setTargetComponents)
 DEFAULT_TARGET = {"shield": "shield", "fuel": "fuel", "grid plate": "grid", "plenum": "clad"}
 FLUIDS = ("Sodium", "Void")
+# material class kinds the expansion code branches on, each in a solid role:
+CUSTOM = "Custom"  # solid, given by custom isotopics; never expands thermally (Component.getThermalExpansionFactor)
+NOCORR = ("Molybdenum",)  # solids without a linear-expansion correlation: a temperature change must be refused
+CUSTOM_ISOTOPICS = {
+    "customfuel": {"input format": "number densities", "U235": 0.004, "U238": 0.03, "ZR": 0.01},
+    "customsteel": {"input format": "number densities", "FE": 0.07, "CR": 0.01},
+}
+
+
+def _comp(init, name, shape, mat, Tin, Thot, **dims):
+    """build.comp with the per-material-kind particulars (isotopics of Custom; Tinput == Thot without correlation)."""
+    if mat == CUSTOM:
+        dims["isotopics"] = "customfuel" if name == "fuel" else "customsteel"
+    if mat in NOCORR:
+        Tin = Thot
+    return build.comp(name, shape, mat, Tin, Thot, **dims)
 
 
 def _T(init, hot):
@@ -41,7 +58,7 @@ def block_table(init, kind):
     """Component table of one block of kind ``kind`` (list of build.comp dicts)."""
     clad = init.get("clad_mat", "HT9")
     fuelm = init.get("fuel_mat", "UZr")
-    duct = build.comp("duct", "Hexagon", "HT9", 25.0, _T(init, 450.0), ip=16.0, op=16.6, mult=1.0)
+    duct = _comp(init, "duct", "Hexagon", init.get("duct_mat") or "HT9", 25.0, _T(init, 450.0), ip=16.0, op=16.6, mult=1.0)
     inter = build.comp("intercoolant", "Hexagon", "Sodium", 450.0, _T(init, 450.0), ip="duct.op", op=PITCH, mult=1.0)
     cool = build.comp("coolant", "DerivedShape", "Sodium", 450.0, _T(init, 450.0))
     if kind == "fuel":
@@ -49,15 +66,15 @@ def block_table(init, kind):
         fid = 0.0
         if init.get("fat"):  # thick pellet, solid or with a central hole wider than the shield slug (od 0.9) below
             od, fid = 0.98, (0.92 if init["fat"] == "hollow" else 0.0)
-        cs = [build.comp("fuel", "Circle", fuelm, 25.0, _T(init, 600.0), id=fid, od=od, mult=NPINS)]
+        cs = [_comp(init, "fuel", "Circle", fuelm, 25.0, _T(init, 600.0), id=fid, od=od, mult=NPINS)]
         if init.get("bond"):
             cs.append(build.comp("bond", "Circle", "Sodium", 450.0, _T(init, 450.0), id="fuel.od", od="clad.id", mult="fuel.mult"))
-        cs.append(build.comp("clad", "Circle", clad, 25.0, _T(init, 470.0), id=1.0, od=1.09, mult="fuel.mult"))
+        cs.append(_comp(init, "clad", "Circle", clad, 25.0, _T(init, 470.0), id=1.0, od=1.09, mult="fuel.mult"))
         return cs + [cool, duct, inter]
     if kind == "plenum":
         return [
             build.comp("gap", "Circle", "Void", 25.0, _T(init, 600.0), id=0.0, od="clad.id", mult="clad.mult"),
-            build.comp("clad", "Circle", clad, 25.0, _T(init, 470.0), id=1.0, od=1.09, mult=NPINS),
+            _comp(init, "clad", "Circle", clad, 25.0, _T(init, 470.0), id=1.0, od=1.09, mult=NPINS),
             cool,
             duct,
             inter,
@@ -65,13 +82,13 @@ def block_table(init, kind):
     if kind == "shield":
         return [
             build.comp("shield", "Circle", "HT9", 25.0, _T(init, 600.0), id=0.0, od=0.9, mult=float(init.get("shield_mult") or NPINS)),
-            build.comp("clad", "Circle", clad, 25.0, _T(init, 470.0), id=1.0, od=1.09, mult="shield.mult"),
+            _comp(init, "clad", "Circle", clad, 25.0, _T(init, 470.0), id=1.0, od=1.09, mult="shield.mult"),
             cool,
             duct,
             inter,
         ]
     if kind == "grid plate":
-        return [build.comp("grid", "Hexagon", "HT9", 25.0, _T(init, 450.0), ip=0.0, op=14.4, mult=1.0), cool, duct, inter]
+        return [_comp(init, "grid", "Hexagon", init.get("grid_mat") or "HT9", 25.0, _T(init, 450.0), ip=0.0, op=14.4, mult=1.0), cool, duct, inter]
     if kind == "dummy":
         return [build.comp("coolant", "Hexagon", "Sodium", 25.0, _T(init, 450.0), ip=0.0, op=PITCH, mult=1.0)]
     raise ValueError(kind)
@@ -97,13 +114,16 @@ def make_spec(init):
         names.append(name)
     n = len(ks)
     fuel_idx = [i for i, k in enumerate(ks) if k == "fuel"]
-    if init.get("fuel_mat", "UZr") == "UZr":
+    if init.get("fuel_mat", "UZr") == CUSTOM:
+        mm = None
+    elif init.get("fuel_mat", "UZr") == "UZr":
         mm = {"U235_wt_frac": [0.11 if i in fuel_idx else "" for i in range(n)], "ZR_wt_frac": [0.06 if i in fuel_idx else "" for i in range(n)]}
     else:
         mm = {"U235_wt_frac": [0.11 if i in fuel_idx else "" for i in range(n)]}
     a = build.assem("IC", names, heights, ["A"] * n, mm)
     return {
         "nuclide flags": build.NUCFLAGS + ["P", "TI", "TA", "S", "CO", "NB"],  # Inconel625 constituents
+        "custom isotopics": CUSTOM_ISOTOPICS,
         "blocks": blocks,
         "assemblies": {"igniter fuel": a},
         "grids": {"core": {"geom": "hex", "symmetry": "full", "contents": {(0, 0): "IC"}}},
